@@ -417,6 +417,7 @@ func init() {
 		c.timer = true
 		ex.recordEnv("time.After", a[0])
 		ev := &envEvent{label: fmt.Sprintf("timer#%d", c.id), armed: true}
+		ex.setDeadline(ev, a[0])
 		ev.fire = func() {
 			ev.armed = false
 			c.buf = append(c.buf, ex.timeNow())
@@ -500,7 +501,10 @@ func init() {
 		return Iface{t: types.NewPointer(t), v: newPtr(Struct{parent, key, a[2]})}
 	})
 	reg("context.WithTimeout", func(ex *Exec, fr *Frame, site ssa.Instruction, a []Value) Value {
-		return ex.ctxWithDeadline(fr, site, a[0])
+		r := ex.ctxWithDeadline(fr, site, a[0])
+		evs := ex.envEvents()
+		ex.setDeadline(evs[len(evs)-1], a[1])
+		return r
 	})
 	reg("context.WithDeadline", func(ex *Exec, fr *Frame, site ssa.Instruction, a []Value) Value {
 		return ex.ctxWithDeadline(fr, site, a[0])
@@ -561,6 +565,17 @@ func tmSub(a, b *Term) *Term { return tIntSub(tmInt(a), tmInt(b)) }
 
 // ctxWithDeadline = WithCancel(parent) whose cancel may also be triggered by the environment
 // (deadline expiry) with context.DeadlineExceeded.
+// setDeadline gives an event a virtual deadline when the duration is concrete.
+func (ex *Exec) setDeadline(ev *envEvent, d Value) {
+	if t, ok := d.(*Term); ok {
+		if u, ok := t.BVVal(); ok {
+			ev.deadline, ev.hasDeadline = ex.vtime+int64(u), true
+		} else if i, ok := t.IntVal(); ok {
+			ev.deadline, ev.hasDeadline = ex.vtime+i, true
+		}
+	}
+}
+
 func (ex *Exec) ctxWithDeadline(fr *Frame, site ssa.Instruction, parent Value) Value {
 	wc := ex.eng.lookupFunc("context", "WithCancel")
 	r := ex.call(fr, site, wc, []Value{parent}, false).(Tuple)
